@@ -20,6 +20,7 @@ PROPERTIES = {
     'C03': ['c03', 'c11'],
     'C05': ['c05', 'c19'],
     'C06': ['c06'],
+    'C07': ['c07'],
     'C08': ['c08'],
     'C09': ['c09'],
     'C10': ['c10'],
